@@ -89,3 +89,19 @@ V('C15', 'neg-reorder-stats', F, P + 'BasePool._connect',
 V('C15', 'neg-extract-local', F, P + 'Pool._maybe_rebalance',
   '            nconns = block.count_conns()\n            quota = block.quota\n',
   '            quota = block.quota\n            nconns = block.count_conns()\n', None)
+V('C15', 'prune-all-keeps-conns-registered', F, P + 'Pool.prune_all_connections',
+  '''            for conn in block.conns:
+                coros.append(self._disconnect(conn, block))
+            block.conns.clear()
+''', '''            coros.extend(self._disconnect(conn, block) for conn in block.conns)
+''', 'C15.R4', 'prune_all_connections:disconnect-of-unregistered')
+V('C15', 'discard-closes-before-unregistering', F, P + 'BasePool._discard_conn',
+  '''        block.conns.pop(conn)
+        self._log_to_snapshot(
+            dbname=block.dbname, event='disconnect', value=block.count_conns())
+        await self._disconnect(conn, block)
+''', '''        self._log_to_snapshot(
+            dbname=block.dbname, event='disconnect', value=block.count_conns())
+        await self._disconnect(conn, block)
+        block.conns.pop(conn)
+''', 'C15.R4', '_discard_conn:disconnect-of-unregistered')
